@@ -8,6 +8,20 @@ every crash index `n` (`crashAt fs op n` = run the first `n` primitive operation
 Limits: a single `write`/`rename` is atomic; durability (fsync) is not modelled; mutable containers
 are not covered here.
 -/
+/-!
+## Coverage of the statement (properties.jsonl C29)
+
+| clause of the statement | theorem(s) for the model |
+|---|---|
+| killed at any point during any share operation and restarted | `crashAt fs op n` for every state `fs`, storage operation `op` and prefix length `n` of its primitive operation list; every theorem below is ∀ n |
+| every share not being written keeps its data and leases | `other_shares_untouched` (one storage operation), `other_shares_untouched_seq` (whole server operations = lists of storage operations: allocate_buckets, add_lease over an SI) — byte-for-byte |
+| an operation that only adds or renews leases never changes any share's data | FALSE for immutable `add_lease`: `lease_ops_preserve_data_counterexample` (open known finding); `lease_ops_preserve_data_partial` (every crash index but the one between record and count write; renewals always) |
+| an immutable share is either absent or complete | `immutable_absent_or_complete` (non-lease ops; rename is the commit point), `every_crash_prefix_absent_or_complete_partial` (all ops, all prefixes except the known-finding index) |
+| uploads still in progress are discarded at restart | `incoming_discarded_at_restart` (files); reservations/handles after restart: correspondence + monitor only (a fresh `StorageServer` has no writers) |
+| mutable containers (lease relocation when growing, truncation, deletion) | not covered here (mutable container models belong to C23–C25) |
+| torn single writes, fsync/durability | not covered (assumption: a single write/rename is atomic and durable) |
+| the primitive operation lists are those of the code | correspondence only: recorded trace of the real code compared with `fsops` on every case (seeded C29-b/C29-c change the trace) |
+-/
 namespace Tahoe.C29
 open Tahoe.Base.File Tahoe.Base.FsOp Tahoe.Storage.Imm Tahoe.Storage.Crash
 
@@ -137,6 +151,72 @@ theorem immutable_absent_or_complete (fs : IFs) (sop : SOp) (n : Nat) (k' : Key)
 example : crashAt exFs (.close (0, 1) true) 1 (.fin (0, 1)) = none ∧
     crashAt exFs (.close (0, 1) true) 2 (.fin (0, 1)) = some (newContainer 4 recA) ∧
     crashAt exFs (.create (0, 2) 4 recA) 3 (.fin (0, 2)) = none := by decide
+
+/-- **other_shares_untouched for whole server operations**: `allocate_buckets` (lease operations on
+    the shares already present, then one container creation per accepted share, then a mkdir) and
+    `add_lease` / `renew_lease` over all shares of a storage index are *lists* of storage operations;
+    at every crash index of the concatenated primitive operation list, every file that none of them
+    targets is byte-for-byte as before. -/
+theorem other_shares_untouched_seq (fs : IFs) (sops : List SOp) (n : Nat) (q : Path)
+    (hq : ∀ sop ∈ sops, q ∉ targets sop) :
+    restart (Tahoe.Base.FsOp.run fs ((sops.flatMap (fsops fs)).take n)) q = restart fs q := by
+  have h : Tahoe.Base.FsOp.run fs ((sops.flatMap (fsops fs)).take n) q = fs q := by
+    apply run_take_untouched
+    intro op ho hmem
+    obtain ⟨sop, hs, hop⟩ := List.mem_flatMap.mp ho
+    exact hq sop hs (fsops_touch fs sop op hop q hmem)
+  cases q <;> simp_all [restart]
+
+example : restart (Tahoe.Base.FsOp.run exFs
+      (([SOp.lease (0, 0) recB 1000, .create (0, 2) 4 recA, .mkFinDir 0].flatMap (fsops exFs)).take 4))
+      (.fin (0, 5)) = none ∧
+    (([SOp.lease (0, 0) recB 1000, .create (0, 2) 4 recA, .mkFinDir 0].flatMap (fsops exFs)).length = 8) := by
+  constructor
+  · rw [other_shares_untouched_seq _ _ _ _ (by decide)]; decide
+  · decide
+
+/-- Full statement (FALSE, see `lease_ops_preserve_data_counterexample`): for every storage
+    operation and EVERY prefix of its primitive operation list, each final share file after restart
+    is absent-or-complete.
+    **every_crash_prefix_absent_or_complete_partial**: it holds for every operation and every prefix
+    except the one index between the two writes of an `add_lease`.  "Absent or complete" is made
+    precise per final path `k'`: the file is exactly what it was before the operation (absent stays
+    absent, a complete share stays identical), or it is exactly the container the uploader had in
+    incoming/ when `close` was called (from the rename on), or — for a lease operation on that
+    share — a well-formed container holding the same share data with the same length. -/
+theorem every_crash_prefix_absent_or_complete_partial (fs : IFs) (sop : SOp) (n : Nat) (k' : Key)
+    (hw : ∀ f, fs (.fin k') = some f → WFFin f)
+    (hr : ∀ k rec avail, sop = .lease k rec avail → rec.length = 72)
+    (guard : ¬ ((∃ k rec avail, sop = .lease k rec avail) ∧ (fsops fs sop).length = 2 ∧ n = 1)) :
+    crashAt fs sop n (.fin k') = fs (.fin k') ∨
+    (∃ last, sop = .close k' last ∧ (fs (.inc k')).isSome ∧ crashAt fs sop n (.fin k') = fs (.inc k')) ∨
+    (∃ rec avail f f', sop = .lease k' rec avail ∧ fs (.fin k') = some f ∧
+      crashAt fs sop n (.fin k') = some f' ∧ SameData f f') := by
+  by_cases hl : ∃ k rec avail, sop = .lease k rec avail
+  · obtain ⟨k, rec, avail, rfl⟩ := hl
+    by_cases hk : k = k'
+    · subst hk
+      cases hf : fs (.fin k) with
+      | none =>
+        left
+        simp [crashAt, restart, fsops, hf, Tahoe.Base.FsOp.run]
+      | some f =>
+        right; right
+        obtain ⟨f', h1, h2, _⟩ := lease_ops_preserve_data_partial fs k f rec avail n hf (hw f hf)
+          (hr k rec avail rfl) (fun hg => guard ⟨⟨k, rec, avail, rfl⟩, hg.1, hg.2⟩)
+        exact ⟨rec, avail, f, f', rfl, rfl, h1, h2⟩
+    · left
+      rw [other_shares_untouched fs _ n _ (by simp [targets]; exact fun h => hk h.symm)]; rfl
+  · rcases immutable_absent_or_complete fs sop n k' (fun k rec avail h => hl ⟨k, rec, avail, h⟩) with h | ⟨last, h1, h2, _, h4⟩
+    · exact Or.inl h
+    · exact Or.inr (Or.inl ⟨last, h1, h2, h4⟩)
+
+example : (∀ f, exFs (.fin (0, 0)) = some f → WFFin f) ∧
+    ¬ ((∃ k rec avail, SOp.lease (0, 0) recB 1000 = .lease k rec avail) ∧
+        (fsops exFs (.lease (0, 0) recB 1000)).length = 2 ∧ 2 = 1) := by
+  refine ⟨fun f hf => ?_, fun h => absurd h.2.2 (by decide)⟩
+  have : f = share10 := by simp [exFs] at hf; exact hf.symm
+  subst this; exact ⟨by decide, by decide⟩
 
 /-- **incoming_discarded_at_restart**: after a crash at any point of any operation, the restarted
     server has no incoming file at all (`_clean_incomplete`), and restart itself changes no final
